@@ -250,7 +250,7 @@ def mixed_family(tier, rng, small=60, big=30):
 
 
 def cfg_C07(tier, rng):
-    charts = thin(mixed_family(tier, rng), rng, 8)
+    charts = thin(mixed_family(tier, rng), rng, 8) + gc.family_nested(rng, 40 if tier == QUICK else 400)
     rd = dict(count=100 if tier == QUICK else 1000, length=14,
               family=lambda r, kk: gc.family_f3(r, kk, nmin=5, nmax=9))
     return [dict(name='declaration', charts=charts,
@@ -260,6 +260,7 @@ def cfg_C07(tier, rng):
                            dict(variant='api_reversed', twin=dict(rel='variant', kw=dict(variant='api', seed=3)))],
                  random=rd),
             dict(name='hashseed', charts=charts[:len(charts) // 3] + thin(gc.family_hist(rng, 40 if tier == QUICK else 300), rng, 9)
+                 + gc.family_nested(rng, 30 if tier == QUICK else 300)
                  + [c for c in gc.family_f1(4) if 'deep' in c['kind']][:40],
                  consts=dict(MaxQ=1, MaxLevel=6 if tier == QUICK else 7),
                  variants=[dict(variant='api', pool='unicode')],
